@@ -20,7 +20,11 @@ SPEC = {
             "rendering of the contiguous buffers; in six forked children (one per order of first use of {pty, tmpfile, pipe}) "
             "print_data with default colour flags must print format_data-without-colour to a non-tty and "
             "format_data-with-USE_COLOR to the pty whatever was printed to before; % / %% literals include the exact midpoint of adjacent floats/doubles and "
-            "17-30-digit literals within 1e-17..1e-29 of it, judged by exact rational rounding. distinct_nontrivial = distinct (operation, generator/address "
+            "17-30-digit literals within 1e-17..1e-29 of it, judged by exact rational rounding; numeric literals are also spelled with an explicit plus sign, "
+            "leading zeros, leading/trailing point, e/E with signed and zero-padded exponents, 40-800 digits, at the subnormal / underflow / overflow "
+            "boundaries of the target type and ended by the end of the text (overflow judged as 'infinity or largest finite', underflow as "
+            "'a zero of either sign'); hex floats, nan, infinity/INF, octal-looking, 0X, out-of-width and >2^64 integers are executed and counted "
+            "only; the totality part walks every prefix of ~125 number spellings after every marker with 22 terminators. distinct_nontrivial = distinct (operation, generator/address "
             "kind, form/colour mode, mask/flag) classes observed, e.g. rt:meta-heavy:quoted:runs, dump:2^64-len:color+prev, "
             "grammar:int64-neg:be:off.",
     "level_text": "Exploration: seeded generation plus completely enumerated small scopes, each execution judged by an "
@@ -58,6 +62,16 @@ SPEC = {
         "grammar:midpoint:float:exact", "grammar:midpoint:float:nearest-D", "grammar:midpoint:float:above-D",
         "grammar:midpoint:float:below-D", "grammar:midpoint:float:plus-eps", "grammar:midpoint:float:minus-eps",
         "grammar:midpoint:double:exact", "grammar:midpoint:double:above-D", "grammar:midpoint:double:minus-eps",
+        "grammar:float-plus-sign:*", "grammar:double-plus-sign:*", "grammar:float-leading-zeros:*", "grammar:double-leading-zeros:*",
+        "grammar:float-dot-edge:*", "grammar:double-dot-edge:*", "grammar:float-exp-marker:*", "grammar:double-exp-marker:*",
+        "grammar:float-long-digits:*", "grammar:double-long-digits:*", "grammar:float-denormal:*", "grammar:double-denormal:*",
+        "grammar:float-underflow:*", "grammar:double-underflow:*", "grammar:float-overflow:le:*", "grammar:float-overflow:be:*",
+        "grammar:double-overflow:*", "grammar:float-overflow-edge:*", "grammar:double-overflow-edge:*",
+        "grammar:float-mixed-spelling:*", "grammar:double-mixed-spelling:*", "grammar:int8-plus:*", "grammar:int16-plus:*",
+        "grammar:int32-plus:*", "grammar:int64-plus:*", "grammar:number-at-end-of-text",
+        "observe:hexfloat:*", "observe:nan:*", "observe:infinity-word:*", "observe:inf-case:*", "observe:space-before-float:*",
+        "observe:int-leading-zero:*", "observe:int-over-2^64:*", "observe:int-out-of-width:*",
+        "total:number-spelling:*", "total:number-spelling-prefix:*", "total:number-spelling-embedded:*", "total:long-number:*",
         "grammar:hex:le:off", "grammar:dq-char:*", "grammar:dq-escape:*", "grammar:sq-char:be:*", "grammar:sq-escape:le:*",
         "grammar:int8-*", "grammar:int16-neg:be:*", "grammar:int32-hex:*", "grammar:int64-neg:be:*", "grammar:int64-dec:le:*",
         "grammar:float:be:*", "grammar:float:le:*", "grammar:double:be:*", "grammar:double:le:*",
@@ -83,8 +97,12 @@ SPEC = {
         "partially covered fields are not demanded); highlighting is judged in the hex and ASCII columns only",
         "address ranges with start+len > 2^64 (wrapping past the top of the address space) are not generated; "
         "ALLOW_FILES is never set",
-        "grammar-generated texts are well-formed (numbers followed by white space, no '/*/' corner, ASCII-only '..' strings); "
-        "ill-formed texts are judged for totality only",
+        "grammar-generated texts are well-formed (numbers followed by white space or the end of the text, no '/*/' corner, "
+        "ASCII-only '..' strings); ill-formed texts are judged for totality only",
+        "float literals whose magnitude is not representable: 'infinity or the largest finite value with the literal's sign' is "
+        "accepted for overflow and a zero of either sign for underflow to zero; hexadecimal floats, nan, 'infinity', upper-case "
+        "INF, white space between marker and number, integers with leading zeros / 0X / negative hex / out of the width / beyond "
+        "2^64 have no documented meaning and are counted (observe:*), not judged",
         "the stream-history part needs a pty (posix_openpt); if none can be opened the counter streams_no_pty is set and only "
         "tmpfile/pipe orders are exercised",
         "libc strtof/strtod/printf are trusted to be correctly rounded (the Python reference computes exact roundings)",
